@@ -29,6 +29,8 @@ def kv_main(ctx, mode, sig_fn=None, extra=None, need_comp=("mem", "l0", "nl0"), 
         from vlib import tlc_mc
         tlc_mc(ctx, "DbIter.tla", "DbIter_quick.cfg" if ctx.quick else "DbIter_thorough.cfg", timeout=1800,
                label="DbIter.tla (dbIter direction machine transcribed) refines the cursor over the live pairs, all entry streams")
+        from itergraph import iter_graph_replay
+        iter_graph_replay(ctx)
     run_kv(ctx, mode, nprog, nsteps, sig_fn=sig_fn, need_comp=need_comp)
     cov = mc_coverage(ctx, extra)
     return finish(ctx, "model_checking", cov, ASSUME)
@@ -37,6 +39,15 @@ def kv_main(ctx, mode, sig_fn=None, extra=None, need_comp=("mem", "l0", "nl0"), 
 def kv_replay(ctx, path):
     files = sorted(glob.glob(os.path.join(path, "*.ndjson"))) if os.path.isdir(path) else [path]
     bad = 0
+    progs = [f for f in files if f.endswith(".mismatch.ndjson")]
+    files = [f for f in files if f not in progs]
+    for f in progs:
+        from itergraph import replay_programs
+        s = replay_programs(ctx, f)
+        if s["mismatches"]:
+            bad += 1
+            print("VIOLATION property=%s replay=%s" % (ctx.pid, path))
+            log("  %s" % s["first"][0]["what"])
     for f in files:
         r = tlc_trace(ctx, "KVTrace.tla", "KVTrace.cfg", f)
         if not r["accepted"]:
